@@ -14,7 +14,9 @@ EXPECT_PROBES = ["second-start-refused", "start-on-restored-refused", "second-fi
                  "finish-after-failed-finish", "start-after-failed-start"]
 
 SYMS = ["start", "start_fail", "finish_valid", "finish_own_side", "finish_unknown_side", "finish_reflected",
-        "finish_undecodable", "finish_identity", "serialize", "restore"]
+        "finish_undecodable", "finish_identity", "serialize", "restore",
+        # not part of the systematic walk (which uses the first 10 symbols):
+        "start_reentrant"]
 
 
 def _systematic(idx):
@@ -63,11 +65,12 @@ def generate(rng, tier="quick"):
     L = rng.choice([1, 2, 2, 3, 3, 3, 4, 4, 4, 5, 6, 8, 10, 10, 18, 25, 40, 70])
     steps = [{"op": "boot", "n": 0}]
     # bias: most histories begin with start (otherwise nearly everything after is a refusal)
-    w = [6, 1, 3, 1, 1, 2, 1, 1, 3, 3]
+    w = [6, 1, 3, 1, 1, 2, 1, 1, 3, 3, 0.7]
     if rng.random() < 0.1:
         # a long-lived instance that is checkpointed again and again (no restore in between)
         L = rng.choice([20, 30, 45, 70])
-        w = [3, 0, 2, 1, 0, 1, 0, 0, 30, 0]
+        w = [3, 0, 2, 1, 0, 1, 0, 0, 30, 0, 0]
+    p_intr = rng.choice([0, 0, 0, 0.1, 0.3])    # calls aborted at an arbitrary instant (injected exception)
     for i in range(L):
         sym = rng.choices(SYMS, weights=w)[0]
         if i == 0 and rng.random() < 0.6:
@@ -81,6 +84,10 @@ def generate(rng, tier="quick"):
                 st["v"] = 0x43
         if sym.startswith("finish_") and rng.random() < 0.12:
             st["as"] = rng.choice(["bytearray", "memoryview"])    # callers pass buffers, not only bytes
+        if p_intr and sym in ("start", "finish_valid", "finish_reflected", "serialize", "restore") and rng.random() < p_intr:
+            st["interrupt"] = gen.gen_interrupt(rng)
+            if sym == "restore":
+                st["interrupt"]["skip"] = rng.randrange(2)
         steps.append(st)
     return {"property": PROP, "config": {"psets": [pspec], "nodes": [node]}, "steps": steps}
 
@@ -101,12 +108,35 @@ class Oracle(Hooks):
         self.finish_failed = False
         self.scalar = None
         self.hist = []
+        self.intr_start = False   # a start() on this instance was aborted by the simulator midway
 
     def _scalar(self, blob):
         try:
             return json.loads(blob.decode("ascii")).get("xy_scalar")
         except Exception:
             return "<unparseable>"
+
+    def _start_outcome(self, w, out, sig):
+        exc = out[4:] if out.startswith("exc:") else None
+        must_refuse = self.msgs >= 1 or self.restored
+        if out == "msg":
+            if must_refuse:
+                self.flag(w, "second-message",
+                          "start() returned a message on %s" % ("a restored instance" if self.restored else
+                                                                "an instance that had already returned one"),
+                          restored=self.restored, **sig)
+            self.msgs += 1
+        else:
+            if must_refuse:
+                w.probe("start-on-restored-refused" if self.restored else "second-start-refused")
+                if exc != "OnlyCallStartOnce":
+                    self.flag(w, "start-wrong-error", "repeated start() raised %s, not OnlyCallStartOnce" % exc,
+                              exc=exc, restored=self.restored, **sig)
+            else:
+                if self.start_failed:
+                    w.probe("start-after-failed-start")
+                self.start_failed = True
+        self.start_called = True
 
     def after_step(self, w, step, ev):
         if ev["op"] != "call" or ev["out"] == "skip":
@@ -118,7 +148,23 @@ class Oracle(Hooks):
         out = ev["out"]
         exc = out[4:] if out.startswith("exc:") else None
         sig = dict(cls=cls, call=what.split("_")[0])
-        if what in ("start", "start_fail"):
+        if ev.get("interrupted"):
+            w.probe("aborted-call:" + ev["intr"]["api"])
+            if out not in ("msg", "key", "blob", "inst"):
+                # the simulator aborted the call at an arbitrary line: it returned nothing, and the
+                # statement fixes nothing about the exception of a failing call
+                if what.startswith("start"):
+                    self.start_called = self.start_failed = self.intr_start = True
+                elif what.startswith("finish_"):
+                    self.finish_failed = True
+                return
+        if what == "start_reentrant" and ev.get("inner") is not None:
+            # the nested call completed first
+            w.probe("reentrant-start")
+            self._start_outcome(w, ev["inner"], sig)
+        if what in ("start", "start_fail", "start_reentrant"):
+            self._start_outcome(w, out, sig)
+        elif False:
             must_refuse = self.msgs >= 1 or self.restored
             if out == "msg":
                 if must_refuse:
@@ -143,7 +189,7 @@ class Oracle(Hooks):
             if out == "key":
                 if self.keys >= 1:
                     self.flag(w, "second-key", "finish() returned a key twice on one instance", **sig)
-                if not started:
+                if not started and not self.intr_start:
                     self.flag(w, "key-before-start", "finish() returned a key on an instance that never sent a message", **sig)
                 if ev.get("key") is None or len(ev["key"]) != 32:
                     pass
@@ -175,6 +221,7 @@ class Oracle(Hooks):
                     self.msgs, self.keys, self.restored = 0, 0, True
                     self.start_called, self.start_failed, self.finish_failed = False, False, False
                     self.scalar = None
+                    self.intr_start = False
             elif phase == "serialize":
                 if not self.start_called and not self.restored:
                     w.probe("serialize-before-start-refused")
